@@ -50,11 +50,50 @@ func intArithScopes(c *Ctx) map[string]ast.Node {
 			if !ok || !strings.HasPrefix(calleeName(info, call), "gojq.binopTypeSwitch") || len(call.Args) < 3 {
 				return true
 			}
-			if fl, ok := unparen(call.Args[2]).(*ast.FuncLit); ok {
-				out[fn+":ints"] = fl.Body
+			switch cb := unparen(call.Args[2]).(type) {
+			case *ast.FuncLit:
+				out[fn+":ints"] = cb.Body
+			case *ast.Ident:
+				// the callback extracted into a named function
+				if f, ok := info.Uses[cb].(*types.Func); ok {
+					if d := c.Decl(c.Gojq, f.Name()); d != nil {
+						out[fn+":ints"] = d.Body
+					}
+				}
 			}
 			return false
 		})
+	}
+	// helpers with an int parameter called from those bodies (addInts-style extraction), transitively
+	for changed, depth := true, 0; changed && depth < 3; depth++ {
+		changed = false
+		for name, body := range out {
+			_ = name
+			ast.Inspect(body, func(m ast.Node) bool {
+				call, ok := m.(*ast.CallExpr)
+				if !ok {
+					return true
+				}
+				f, ok := callee(info, call).(*types.Func)
+				if !ok || f.Pkg() == nil || f.Pkg().Path() != pathGojq || f.Type().(*types.Signature).Recv() != nil {
+					return true
+				}
+				hasInt := false
+				ps := f.Type().(*types.Signature).Params()
+				for i := 0; i < ps.Len(); i++ {
+					if isIntType(ps.At(i).Type()) {
+						hasInt = true
+					}
+				}
+				if d := c.Decl(c.Gojq, f.Name()); hasInt && d != nil {
+					if _, had := out[f.Name()]; !had {
+						out[f.Name()] = d.Body
+						changed = true
+					}
+				}
+				return true
+			})
+		}
 	}
 	for _, fn := range []string{"negate", "funcAbs", "funcLength"} {
 		if fd := c.Decl(c.Gojq, fn); fd != nil {
